@@ -221,7 +221,9 @@ def fields(draw, versions: list[int], flex: set[int], top: int, depth: int, stru
                     f["type"] = "int32"
                     out.append(f)
                     continue
-                f["fields"] = draw(fields(fvers, flex, top, depth + 1, struct_names, [], allow_special, nullable_prim_arrays))
+                # nested levels may reference the definition's commonStructs too (upstream: a struct below an inline struct
+                # and a top-level array often share one common struct)
+                f["fields"] = draw(fields(fvers, flex, top, depth + 1, struct_names, commons, allow_special, nullable_prim_arrays))
             f["type"] = ("[]" if array else "") + sname
             if (array or not use_common) and draw(st.integers(0, 3)) == 0:
                 nlo, nhi = draw(sub_range(fvers, top))
